@@ -867,6 +867,18 @@ theorem xstr_printf_exact (junk : Nat) (x : XMem) (inv : x.Inv) (out : Bytes) :
     refine ⟨x', e, i', ?_, t⟩
     rw [d, if_pos hp, s1, s3]
 
+/-- the constructors at buffer level: `iwxstr_wrap` makes room for the terminator when the caller's buffer is
+exactly full (`size ≥ asize`), `iwxstr_clone` (fixed) copies the data into a buffer of the same size and
+terminates it; both establish `size < asize` -/
+theorem xstr_wrap_clone_spec (junk : Nat) (b : Bytes) (asize : Nat) (x : XMem) (inv : x.Inv) :
+    (∃ y, mwrap junk b asize = some y ∧ y.Inv ∧ y.abs = wrap b asize) ∧
+    (∃ c, mclone junk x = some c ∧ c.Inv ∧ c.abs = clone x.abs) := by
+  obtain ⟨y, e1, i1, d1, a1, t1⟩ := mwrap_spec junk b asize
+  obtain ⟨c, e2, i2, d2, a2, t2⟩ := mclone_spec junk x inv
+  refine ⟨⟨y, e1, i1, ?_⟩, ⟨c, e2, i2, ?_⟩⟩
+  · unfold XMem.abs wrap; rw [d1, a1, t1]
+  · unfold XMem.abs clone; rw [d2, a2, t2]
+
 example : printfBytes (List.replicate 1024 65) = some (List.replicate 1024 65) := printfBytes_eq _
 
 end XSTR
